@@ -426,13 +426,21 @@ func (e *Explorer) noteAbort(reason string) {
 }
 
 // concInt returns a concrete integer for v; a symbolic v is forked over its feasible values.
-func concInt(v value, site string) int64 {
+func concInt(v value, site string) int64 { return concIntT(v, nil, site) }
+
+func concIntT(v value, vt types.Type, site string) int64 {
 	s, ok := v.(sym)
 	if !ok {
 		return asInt64(v)
 	}
 	e := exOf(s.t)
-	return e.ForkValue(s.t, true, site)
+	signed := true
+	if vt != nil {
+		if _, sg, ok := intInfo(vt); ok {
+			signed = sg
+		}
+	}
+	return e.ForkValue(s.t, signed, site)
 }
 
 // concBool decides a possibly symbolic bool.
@@ -447,17 +455,20 @@ func concBool(v value) bool {
 }
 
 // inRange forks on lo <= v <= hi (signed 64-bit view). Returns false on the out-of-range branch.
-func inRange(v value, lo, hi int64) bool {
+func inRange(v value, lo, hi int64) bool { return inRangeT(v, lo, hi, nil) }
+
+// inRangeT: vt is the static type of v (decides sign or zero extension of narrow operands).
+func inRangeT(v value, lo, hi int64, vt types.Type) bool {
 	s, ok := v.(sym)
 	if !ok {
+		if u, isU := v.(uint64); isU && u > 1<<62 {
+			return false
+		}
 		x := asInt64(v)
 		return lo <= x && x <= hi
 	}
 	c := s.t.C
-	t := s.t
-	if t.W < 64 {
-		t = c.SExt(t, 64) // index operands are converted to int by the SSA builder; be safe
-	}
+	t := extIndex(s.t, vt)
 	if hi < lo {
 		return false
 	}
@@ -465,12 +476,25 @@ func inRange(v value, lo, hi int64) bool {
 	return exOf(s.t).Branch(in)
 }
 
-func idxTerm(v value) *smt.Term {
-	s := v.(sym)
-	if s.t.W < 64 {
-		return s.t.C.SExt(s.t, 64)
+func idxTerm(v value) *smt.Term { return idxTermT(v, nil) }
+
+func idxTermT(v value, vt types.Type) *smt.Term { return extIndex(v.(sym).t, vt) }
+
+// extIndex widens an index operand to 64 bits according to its static type (unsigned types zero-extend).
+func extIndex(t *smt.Term, vt types.Type) *smt.Term {
+	if t.W >= 64 {
+		return t
 	}
-	return s.t
+	signed := true
+	if vt != nil {
+		if _, sg, ok := intInfo(vt); ok {
+			signed = sg
+		}
+	}
+	if signed {
+		return t.C.SExt(t, 64)
+	}
+	return t.C.ZExt(t, 64)
 }
 
 func isScalarType(t types.Type) bool {
